@@ -21,6 +21,7 @@ pub mod c07;
 pub mod c06;
 pub mod c09;
 pub mod c08;
+pub mod c17;
 
 pub struct Tier {
     pub thorough: bool,
@@ -139,6 +140,7 @@ pub fn run_property(id: &str, t: &Tier, replay: Option<(String, std::collections
         "C06" => c06::run(&mut pr, t),
         "C09" => c09::run(&mut pr, t),
         "C08" => c08::run(&mut pr, t),
+        "C17" => c17::run(&mut pr, t),
         _ => return None,
     }
     let _ = explore;
